@@ -27,6 +27,8 @@ structure Tcb where
   timedOut : Bool := false
   egressSinceAck : Nat := 0
   retxAttempts : Nat := 0
+  /-- `persist_ticks` (only touched with `fixPersistProbe`). -/
+  persistTicks : Nat := 0
   deriving DecidableEq, Repr, Inhabited
 
 namespace Tcb
@@ -138,6 +140,20 @@ def finPending (t : Tcb) : Bool :=
   match t.finSeq with
   | some fs => t.sndNxt == fs
   | none => false
+
+/-- The persist filter at the end of `check_retx`: something to send, nothing in flight, zero window. -/
+def persistCandidate (t : Tcb) : Bool :=
+  t.transmittable && t.sndWnd == 0 && t.sndUna == t.sndNxt && (!t.sendBuf.isEmpty || t.finPending)
+
+/-- The window probe of `persist_probe`: the first unsent byte, or the FIN, at `snd_nxt`. -/
+def probeSeg (recvCap srcPort : Nat) (t : Tcb) : Seg :=
+  { srcPort := srcPort, dstPort := t.peer.port, seq := t.sndNxt, ack := t.rcvNxt,
+    flags := { ack := true, psh := !t.sendBuf.isEmpty, fin := t.sendBuf.isEmpty },
+    window := advWindow recvCap t.recvBuf.length, payload := t.sendBuf.take 1 }
+
+/-- The TCB after a probe went out: the tick counter restarts, `snd_max` covers the probe. -/
+def probed (t : Tcb) : Tcb :=
+  { t with persistTicks := 0, sndMax := if t.sndMax == t.sndUna then wadd t.sndNxt 1 else t.sndMax }
 
 /-- `segment_all`'s candidate filter (tcp.rs:1223-1240). -/
 def segCandidate (t : Tcb) : Bool :=
